@@ -66,8 +66,16 @@ pub enum Mode {
     Free { seed: u64 },
 }
 
+#[derive(Clone, Debug, PartialEq, Eq, PartialOrd, Ord)]
+pub struct Outcome {
+    /// thread -> per operation -> named fields
+    pub replies: BTreeMap<String, Vec<Vec<(String, String)>>>,
+    pub db: Vec<String>,
+    pub rpcs: Vec<String>,
+}
+
 pub struct ExecResult {
-    pub outcome: String,
+    pub outcome: Outcome,
     pub stuck: Option<Stuck>,
     pub panics: Vec<panics::PanicRecord>,
     pub schedule_hash: u64,
@@ -78,51 +86,57 @@ pub struct ExecResult {
     pub boot_failed: Option<String>,
 }
 
-fn canon_reply<T: std::fmt::Debug>(r: &Result<T, tower::ApiErr>) -> String {
-    match r {
-        Ok(x) => format!("ok {x:?}"),
-        Err(e) => format!("err {:?} {}", e.code(), e.msg()),
-    }
+fn fields(names: &[&str], vals: Vec<String>) -> Vec<(String, String)> {
+    names.iter().map(|n| n.to_string()).zip(vals).collect()
 }
 
-fn run_cop(world: &World, api: &Arc<teos::api::internal::InternalAPI>, op: &COp) -> String {
+fn err_fields(e: &tower::ApiErr) -> Vec<(String, String)> {
+    vec![("status".into(), format!("err {:?}", e.code())), ("message".into(), e.msg().to_string())]
+}
+
+fn run_cop(world: &World, api: &Arc<teos::api::internal::InternalAPI>, op: &COp) -> Vec<(String, String)> {
     match op {
-        COp::Register { user } => {
-            let r = tower::register(api, world.users[*user].1.serialize().to_vec()).map(|r| (r.available_slots, r.subscription_start, r.subscription_expiry));
-            canon_reply(&r)
-        }
+        COp::Register { user } => match tower::register(api, world.users[*user].1.serialize().to_vec()) {
+            Ok(r) => fields(&["status", "slots", "start", "expiry"], vec!["ok".into(), r.available_slots.to_string(), r.subscription_start.to_string(), r.subscription_expiry.to_string()]),
+            Err(e) => err_fields(&e),
+        },
         COp::Add { ver, sig } => {
             let v = &world.versions[*ver];
-            let r = tower::add_appointment(api, world.chans[v.chan].locator.clone(), v.blob.clone(), v.tsd, sig.clone()).map(|r| (r.start_block, r.available_slots, r.subscription_expiry));
-            canon_reply(&r)
+            match tower::add_appointment(api, world.chans[v.chan].locator.clone(), v.blob.clone(), v.tsd, sig.clone()) {
+                Ok(r) => fields(&["status", "start_block", "slots", "expiry"], vec!["ok".into(), r.start_block.to_string(), r.available_slots.to_string(), r.subscription_expiry.to_string()]),
+                Err(e) => err_fields(&e),
+            }
         }
-        COp::GetAppt { chan, sig } => {
-            let r = tower::get_appointment(api, world.chans[*chan].locator.clone(), sig.clone()).map(|r| (r.status, fnv(format!("{:?}", r.appointment_data).as_bytes())));
-            canon_reply(&r)
-        }
-        COp::GetSub { sig } => {
-            let r = tower::get_subscription_info(api, sig.clone()).map(|r| {
+        COp::GetAppt { chan, sig } => match tower::get_appointment(api, world.chans[*chan].locator.clone(), sig.clone()) {
+            Ok(r) => fields(&["status", "appointment_status", "data"], vec!["ok".into(), r.status.to_string(), fnv(format!("{:?}", r.appointment_data).as_bytes()).to_string()]),
+            Err(e) => err_fields(&e),
+        },
+        COp::GetSub { sig } => match tower::get_subscription_info(api, sig.clone()) {
+            Ok(r) => {
                 let mut l = r.locators.clone();
                 l.sort();
-                (r.available_slots, r.subscription_expiry, l.len(), fnv(format!("{l:?}").as_bytes()))
-            });
-            canon_reply(&r)
-        }
+                fields(&["status", "slots", "expiry", "n_locators", "locators"], vec!["ok".into(), r.available_slots.to_string(), r.subscription_expiry.to_string(), l.len().to_string(), fnv(format!("{l:?}").as_bytes()).to_string()])
+            }
+            Err(e) => err_fields(&e),
+        },
     }
 }
 
-fn canon_db(s: &Snap) -> String {
-    let mut out = String::new();
+fn canon_db(s: &Snap) -> Vec<String> {
+    let mut out = Vec::new();
     for (k, u) in &s.users {
-        out.push_str(&format!("U {} {} {} {}\n", hex::encode(&k[..6]), u.available_slots, u.start, u.expiry));
+        out.push(format!("U {} slots={} start={} expiry={}", hex::encode(&k[..6]), u.available_slots, u.start, u.expiry));
     }
     for (k, a) in &s.appts {
-        out.push_str(&format!("A {} {} {} {} {} {}\n", hex::encode(&k[..6]), fnv(&a.blob), a.to_self_delay, a.start_block, fnv(a.user_signature.as_bytes()), hex::encode(&a.user_id[..6])));
+        out.push(format!("A {} blob={} tsd={} start_block={} sig={} owner={}", hex::encode(&k[..6]), fnv(&a.blob), a.to_self_delay, a.start_block, fnv(a.user_signature.as_bytes()), hex::encode(&a.user_id[..6])));
     }
     for (k, t) in &s.trackers {
-        out.push_str(&format!("T {} {} {} {} {}\n", hex::encode(&k[..6]), fnv(&t.dispute_tx), fnv(&t.penalty_tx), t.height, t.confirmed));
+        // the height kept for an unconfirmed penalty is bookkeeping no API exposes; it legitimately depends
+        // on where inside a block event a request lands
+        let h = if t.confirmed { t.height.to_string() } else { "-".into() };
+        out.push(format!("T {} dispute={} penalty={} confirmed={} height={h}", hex::encode(&k[..6]), fnv(&t.dispute_tx), fnv(&t.penalty_tx), t.confirmed));
     }
-    out.push_str(&format!("fk {} lkb {:?}\n", s.fk_violations, s.last_known_block.as_ref().map(|b| hex::encode(&b[..6]))));
+    out.push(format!("X fk={} last_known_block={:?}", s.fk_violations, s.last_known_block.as_ref().map(|b| hex::encode(&b[..6]))));
     out
 }
 
@@ -152,7 +166,7 @@ pub fn execute(sc: &Scenario, mode: &Mode, dir: &PathBuf) -> ExecResult {
     let log_start = std::cell::Cell::new(0usize);
     panics::take();
     set_observer(Some(sched.clone()));
-    let mut replies: BTreeMap<String, Vec<String>> = BTreeMap::new();
+    let mut replies: BTreeMap<String, Vec<Vec<(String, String)>>> = BTreeMap::new();
     let res = catch_unwind(AssertUnwindSafe(|| {
         tower::run_session(&chain, &node, &cfg, |s| {
             match &sc.pending {
@@ -164,7 +178,7 @@ pub fn execute(sc: &Scenario, mode: &Mode, dir: &PathBuf) -> ExecResult {
             // thread ids are handed out here, in a fixed order
             let chain_tid = sched.add_thread("chain", "chain");
             let api_tids: Vec<usize> = (0..sc.api.len()).map(|i| sched.add_thread(&format!("api{i}"), "api")).collect();
-            let out: Vec<(String, Vec<String>)> = std::thread::scope(|scope| {
+            let out: Vec<(String, Vec<Vec<(String, String)>>)> = std::thread::scope(|scope| {
                 let mut handles = Vec::new();
                 for (i, ops) in sc.api.iter().enumerate() {
                     let api = s.api.clone();
@@ -175,12 +189,12 @@ pub fn execute(sc: &Scenario, mode: &Mode, dir: &PathBuf) -> ExecResult {
                         sched.attach(tid);
                         let r = catch_unwind(AssertUnwindSafe(|| {
                             sched.thread_start();
-                            ops.iter().map(|op| run_cop(world, &api, op)).collect::<Vec<String>>()
+                            ops.iter().map(|op| run_cop(world, &api, op)).collect::<Vec<_>>()
                         }));
                         sched.thread_finish();
                         let rs = match r {
                             Ok(v) => v,
-                            Err(p) => vec![if p.downcast_ref::<SchedAbort>().is_some() { "ABORTED".to_string() } else { "PANIC".to_string() }],
+                            Err(p) => vec![vec![("status".to_string(), if p.downcast_ref::<SchedAbort>().is_some() { "ABORTED".to_string() } else { "PANIC".to_string() })]],
                         };
                         (format!("api{i}"), rs)
                     }));
@@ -194,12 +208,12 @@ pub fn execute(sc: &Scenario, mode: &Mode, dir: &PathBuf) -> ExecResult {
                     }
                 }));
                 sched.thread_finish();
-                let mut out = vec![("chain".to_string(), vec![match r {
+                let mut out = vec![("chain".to_string(), vec![vec![("status".to_string(), match r {
                     Ok(_) => "done".to_string(),
                     Err(p) => if p.downcast_ref::<SchedAbort>().is_some() { "ABORTED".to_string() } else { "PANIC".to_string() },
-                }])];
+                })]])];
                 for h in handles {
-                    out.push(h.join().unwrap_or(("?".into(), vec!["JOIN-PANIC".into()])));
+                    out.push(h.join().unwrap_or(("?".into(), vec![vec![("status".into(), "JOIN-PANIC".into())]])));
                 }
                 out
             });
@@ -228,7 +242,7 @@ pub fn execute(sc: &Scenario, mode: &Mode, dir: &PathBuf) -> ExecResult {
         })
         .collect();
     rpcs.sort();
-    let outcome = format!("{replies:?}\n{}{rpcs:?}", canon_db(&snap));
+    let outcome = Outcome { replies, db: canon_db(&snap), rpcs };
     let _ = std::fs::remove_file(&db_path);
     let mut recs = panics::take();
     if recs.iter().any(|r| !r.message.contains("PoisonError")) {
@@ -538,7 +552,7 @@ pub fn run(seed: u64, shard: u64, nshards: u64, schedules_per_scenario: u64, fre
         }
         // ---- sequential reference outcomes (scripted schedules); each interleaving is run twice to
         // absorb map-iteration non-determinism inside one operation
-        let mut refs: BTreeSet<String> = BTreeSet::new();
+        let mut refs: BTreeSet<Outcome> = BTreeSet::new();
         let inter = interleavings(if sc.poll { sc.connects + 1 } else { 0 }, sc.api.len());
         let mut ref_problem = None;
         let mut horizon = 10usize;
@@ -571,7 +585,7 @@ pub fn run(seed: u64, shard: u64, nshards: u64, schedules_per_scenario: u64, fre
         if std::env::var("TV_DEBUG").is_ok() {
             eprintln!("=== scenario {} refs={}", sc.name, refs.len());
             for r in &refs {
-                eprintln!("--- ref outcome:\n{r}");
+                eprintln!("--- ref outcome:\n{r:#?}");
             }
             let r = execute(sc, &Mode::Pct { seed: 5, preemptions: 2, horizon }, &dir);
             eprintln!("--- sample pct schedule ({} decisions, {} switches): {:?}", r.decisions.len(), r.switches, r.decisions);
@@ -660,30 +674,58 @@ pub fn run(seed: u64, shard: u64, nshards: u64, schedules_per_scenario: u64, fre
     std::fs::remove_dir_all(&dir).ok();
 }
 
-fn diff_against(outcome: &str, refs: &BTreeSet<String>) -> (String, String) {
-    // nearest reference = most common lines
-    let lines: BTreeSet<&str> = outcome.lines().collect();
-    let best = refs.iter().max_by_key(|r| r.lines().filter(|l| lines.contains(l)).count());
-    match best {
-        None => ("no reference outcome".into(), "noref".into()),
-        Some(b) => {
-            let bl: BTreeSet<&str> = b.lines().collect();
-            let only_got: Vec<&&str> = lines.difference(&bl).collect();
-            let only_ref: Vec<&&str> = bl.difference(&lines).collect();
-            // which parts of the outcome differ: replies (first line), database rows, RPC multiset (last line)
-            let mut parts = BTreeSet::new();
-            for l in only_got.iter().chain(only_ref.iter()) {
-                if l.starts_with("{\"") {
-                    parts.insert("replies");
-                } else if l.starts_with('[') {
-                    parts.insert("rpcs");
-                } else if l.starts_with("U ") {
-                    parts.insert("balances");
-                } else {
-                    parts.insert("records");
+fn diff_against(got: &Outcome, refs: &BTreeSet<Outcome>) -> (String, String) {
+    fn labels(got: &Outcome, r: &Outcome) -> BTreeSet<String> {
+        let mut l = BTreeSet::new();
+        for (t, ops) in &got.replies {
+            let rops = r.replies.get(t);
+            for (i, f) in ops.iter().enumerate() {
+                let rf = rops.and_then(|o| o.get(i));
+                match rf {
+                    None => {
+                        l.insert(format!("{t}.missing"));
+                    }
+                    Some(rf) => {
+                        let gs = f.iter().find(|x| x.0 == "status").map(|x| &x.1);
+                        let rs = rf.iter().find(|x| x.0 == "status").map(|x| &x.1);
+                        if gs != rs {
+                            l.insert(format!("{t}.status"));
+                        } else {
+                            for (name, val) in f {
+                                if rf.iter().find(|x| x.0 == *name).map(|x| &x.1) != Some(val) {
+                                    l.insert(format!("{t}.{name}"));
+                                }
+                            }
+                        }
+                    }
                 }
             }
-            (format!("Observed but in no sequential order: {only_got:?}; nearest sequential outcome has instead: {only_ref:?}"), parts.into_iter().collect::<Vec<_>>().join("+"))
+        }
+        let g: BTreeSet<&String> = got.db.iter().collect();
+        let rr: BTreeSet<&String> = r.db.iter().collect();
+        for x in g.symmetric_difference(&rr) {
+            l.insert(match x.chars().next() {
+                Some('U') => "db.balances".to_string(),
+                Some('A') => "db.appointments".to_string(),
+                Some('T') => "db.trackers".to_string(),
+                _ => "db.other".to_string(),
+            });
+        }
+        if got.rpcs != r.rpcs {
+            l.insert("rpcs".into());
+        }
+        l
+    }
+    let best = refs.iter().map(|r| (labels(got, r), r)).min_by_key(|(l, _)| l.len());
+    match best {
+        None => ("no reference outcome".into(), "noref".into()),
+        Some((l, r)) => {
+            let g: BTreeSet<&String> = got.db.iter().collect();
+            let rr: BTreeSet<&String> = r.db.iter().collect();
+            (
+                format!("Differs from the nearest sequential outcome in {l:?}. Observed replies {:?}, nearest sequential replies {:?}; rows only observed {:?}, rows only in the sequential outcome {:?}; broadcasts observed {:?} vs {:?}", got.replies, r.replies, g.difference(&rr).collect::<Vec<_>>(), rr.difference(&g).collect::<Vec<_>>(), got.rpcs, r.rpcs),
+                l.into_iter().collect::<Vec<_>>().join("+"),
+            )
         }
     }
 }
